@@ -1398,16 +1398,22 @@ def rule_c12_structure(ctx, prog, rule="R13"):
                         continue
                     break
                 u = unwrap_try(e)
-                if isinstance(u, tuple) and u[0] == "field" and str(u[2]) in ("0", "1") and depth_ < 2:
-                    # component of the tuple a private helper returns: `let (min, max) = min_and_max(a)?`
+                if isinstance(u, tuple) and u[0] == "field" and depth_ < 2:
+                    # component of the tuple or private struct a private helper returns: `let (min, max) = min_and_max(a)?`,
+                    # `Extent::of(a)?.min`
                     base = unwrap_try(u[1])
+                    for _ in range(3):
+                        if isinstance(base, tuple) and base[0] in ("ref", "deref"):
+                            base = unwrap_try(base[1])
                     if isinstance(base, tuple) and base[0] == "call":
                         cb = prog.bodies.get(base[2])
                         if cb is not None and cb.key not in prog.exported and not cb.is_closure:
                             svs = [ds(v) for _, v in success_values(prog.tracked(cb))]
-                            if len(svs) == 1 and isinstance(svs[0], tuple) and svs[0][0] == "agg" and len(svs[0][3]) == 2:
-                                comp = gsubst(ds(svs[0][3][int(u[2])]), {i + 1: ds(x) for i, x in enumerate(base[3])})
-                                return from_extremum(comp, which, depth_ + 1)
+                            if len(svs) == 1 and isinstance(svs[0], tuple) and svs[0][0] == "agg" and svs[0][1] != "closure":
+                                names = [str(x) for x in (svs[0][4] if len(svs[0]) > 4 and svs[0][4] else range(len(svs[0][3])))]
+                                if str(u[2]) in names:
+                                    comp = gsubst(ds(svs[0][3][names.index(str(u[2]))]), {i + 1: ds(x) for i, x in enumerate(base[3])})
+                                    return from_extremum(comp, which, depth_ + 1)
                     return False
                 return isinstance(u, tuple) and u[0] == "call" and u[1] == which and ds(u[3][0])[:2] == ("param", 1)
             ok = from_extremum(a_[1], "min") and from_extremum(a_[2], "max")
@@ -1423,18 +1429,35 @@ def rule_c12_structure(ctx, prog, rule="R13"):
     # Auto: the three accessors dispatch on the same enum to the same variant's method
     for m in ("build", "n_bins"):
         mb = prog.find("histogram::strategies::Auto<T> as histogram::strategies::BinsBuildingStrategy>::%s" % m)
-        calls = [(bb, t) for bb, t in mb.calls() if callee_name(t) == m]
-        ok = len(calls) == 2
+        from .facts import inline_calls
+        # the dispatch may live in a private method of the enum itself
+        mb = inline_calls(prog, mb, lambda cb: cb.key not in prog.exported and "SturgesOrFD" in cb.key and not cb.raw.get("unsafe_fn"))
+        # every return path returns, unchanged, the result of the variant's own method on that variant's payload
+        from .paths import enumerate_paths, resolve_phi, NotLoopFree
         vs = set()
-        for bb, t in calls:
-            a0 = ds(mb.call_arg_exprs(bb)[0])
-            # (self.builder as Variant).0
-            if isinstance(a0, tuple) and a0[0] == "field" and isinstance(a0[1], tuple) and a0[1][0] == "downcast":
-                variant = a0[1][2]
-                callee_self = t["callee"].get("self_ty") or t["callee"].get("path_args") or ""
-                vs.add(variant)
-                if variant not in callee_self:
-                    ok = False
+        ok = True
+        try:
+            paths = enumerate_paths(mb)
+        except NotLoopFree:
+            paths, ok = [], False
+        for p_ in paths:
+            if p_[1] is None:
+                ok = False
+                continue
+            r = ds(resolve_phi(mb, mb.def_expr(0, p_[1]), p_.blocks))
+            good = False
+            if isinstance(r, tuple) and r[0] == "call" and r[1] == m and r[3]:
+                a0 = ds(r[3][0])
+                # (self.builder as Variant).0
+                if isinstance(a0, tuple) and a0[0] == "field" and isinstance(a0[1], tuple) and a0[1][0] == "downcast":
+                    base = ds(a0[1][1])
+                    variant = a0[1][2]
+                    site = mb.site_term(r[4])
+                    callee_self = site["callee"].get("self_ty") or site["callee"].get("path_args") or ""
+                    good = variant in callee_self and base == ("field", ("param", 1, "self"), "builder")
+                    if good:
+                        vs.add(variant)
+            ok = ok and good
         ok = ok and vs == {"Sturges", "FreedmanDiaconis"}
         ctx.ob("R13", "Auto::%s/dispatch" % m, ok, mb.where(), "each variant dispatches to its own %s()" % m if ok else
                "Auto::%s does not dispatch each variant to that variant's method" % m, what="Auto accessor dispatches to the wrong strategy")
@@ -1513,6 +1536,12 @@ def rule_c18_moments(ctx, prog, rule="R13"):
     corr2 = canon_expr(prog, cms, a2[1])
     # coefficients = central_moment_coefficients(M or M[..=k])
     def coeff_input(c):
+        # the coefficient vector may be lent (`&coefficients`, deref-coerced to a slice) instead of moved
+        for _ in range(4):
+            if isinstance(c, tuple) and c[0] == "call" and c[1] in ("deref", "as_slice", "as_ref", "borrow") and c[3]:
+                c = c[3][0]
+            elif isinstance(c, tuple) and c[0] in ("ref", "deref"):
+                c = c[1]
         if isinstance(c, tuple) and c[0] == "call" and c[1] == "central_moment_coefficients":
             x = c[3][0]
             while isinstance(x, tuple) and x[0] == "call" and x[1] == "deref":
@@ -2097,6 +2126,8 @@ def fn_term(prog, body, names, depth=0, pick_field=None, kernel_cls=None):
         if isinstance(e, tuple) and e[0] == "param" and e[1] in names:
             return names[e[1]]
         cb = local_helper(e)
+        if cb is not None and any(isinstance(ds(a), tuple) and ds(a)[:2] == ("agg", "closure") for a in e[3]):
+            return None      # a helper taking a closure: Kernel.term evaluates it with the closure kept symbolic until it is called
         if cb is not None:
             sub = {}
             for i, a in enumerate(e[3]):
@@ -2155,42 +2186,53 @@ def rule_c01_interpolation(ctx, prog, rule="R19"):
         ctx.ob(rule, "%s/needs" % s_, (gl, gh) == (nl, nh), impl(s_, "needs_lower").where(),
                "needs_lower = %s, needs_higher = %s" % (nl, nh) if (gl, gh) == (nl, nh) else "needs_lower/higher are %s/%s, expected %s/%s" % (gl, gh, nl, nh),
                what="strategy requests the wrong neighbours")
-    # Nearest: lower iff fraction < 0.5 ; higher = !lower
+    # Nearest: lower iff fraction < 0.5 ; higher = !lower ; interpolate = lower-needed ? lower : higher.
+    # Each of the three functions is read as a guarded-value table over atomic comparisons (dtree.Table), private helpers
+    # of the module inlined, so the spelling (if / !helper / match on a private enum) does not matter.
+    from .dtree import Table, NoTable
     nlb = impl("Nearest", "needs_lower")
-    try:
-        r = ds(prog.tracked(nlb).return_expr())
-        ok = isinstance(r, tuple) and r[0] == "call" and r[1] == "lt" and ds(r[3][1]) == ("const", "f64", 0.5)
-        if ok:
-            Kn = Kernel(prog, prog.tracked(nlb), lambda e: qn.get(e[1]) if (isinstance(e, tuple) and e[0] == "param") else
-                        (fn_term(prog, prog.bodies[e[2]], {i + 1: Kn.term(a) for i, a in enumerate(e[3])}) if (isinstance(e, tuple) and e[0] == "call" and e[2] in prog.bodies and e[2].startswith("quantile::interpolate::")) else None))
-            ok = canon_op(Kn.term(r[3][0])) == canon_op(FR)
-        ctx.ob(rule, "Nearest/needs_lower", ok, nlb.where(), "lower iff fract((N−1)q) < 0.5" if ok else "Nearest::needs_lower is `%s`" % fmt(r)[:100],
-               what="nearest neighbour chosen by the wrong threshold")
-        nhb = impl("Nearest", "needs_higher")
-        r2 = ds(nhb.return_expr())
-        ok2 = isinstance(r2, tuple) and r2[0] == "unop" and r2[1] == "Not" and ds(r2[2])[0] == "call" and ds(r2[2])[1] == "needs_lower" \
-            and "Nearest" in (nhb.site_term(ds(r2[2])[4])["callee"].get("path_args") or "")
-        ctx.ob(rule, "Nearest/needs_higher", ok2, nhb.where(), "= !needs_lower(q, len)" if ok2 else "`%s`" % fmt(r2)[:100], what="nearest: lower/higher not complementary")
-        ib = impl("Nearest", "interpolate")
-        tb = prog.tracked(ib)
-        sw = [bb for bb in tb.live_blocks() if tb.term(bb)["k"] == "switch" and ds(tb.switch_discr_expr(bb))[0] == "call"]
-        ok3 = False
-        if len(sw) == 1:
-            de = ds(tb.switch_discr_expr(sw[0]))
-            from .rules_guard import Routine
-            rr = Routine.__new__(Routine)
-            rr.prog, rr.body = prog, tb
-            t = tb.term(sw[0])
-            f = [tgt for v, tgt in t["arms"] if v == 0][0]
-            vt = [ds(tb.def_expr(0, d)) for d in rr.first_ret_defs(t["otherwise"], sw[0]) if d not in (None, "loop")]
-            vf = [ds(tb.def_expr(0, d)) for d in rr.first_ret_defs(f, sw[0]) if d not in (None, "loop")]
-            ok3 = de[1] == "needs_lower" and de[3][0][:2] == ("param", 3) and de[3][1][:2] == ("param", 4) and \
-                len(vt) == 1 and vt[0][0] == "call" and vt[0][1] == "unwrap" and vt[0][3][0][:2] == ("param", 1) and \
-                len(vf) == 1 and vf[0][0] == "call" and vf[0][1] == "unwrap" and vf[0][3][0][:2] == ("param", 2)
-        ctx.ob(rule, "Nearest/interpolate", ok3, ib.where(), "needs_lower(q, len) ? lower : higher" if ok3 else "Nearest::interpolate has an unexpected shape",
-               what="nearest returns the wrong neighbour")
-    except Unrecognised as ex:
-        unrec(ctx, rule, "Nearest/table", nlb.where(), ex)
+
+    def local_helper(cb):
+        return cb.key.startswith("quantile::interpolate::") or "quantile::interpolate::" in cb.key
+
+    def leafless(cb):
+        # inline everything of the module except the index arithmetic itself (kept as a term leaf)
+        return local_helper(cb) and cb.key.split("::")[-1] not in ("float_quantile_index_fraction", "float_quantile_index", "lower_index", "higher_index")
+
+    def table_of(b, pmap):
+        def canon(e, body):
+            def leaf(x):
+                if isinstance(x, tuple) and x[0] == "param":
+                    return pmap.get(x[1])
+                if isinstance(x, tuple) and x[0] == "call" and x[2] in prog.bodies and x[2].startswith("quantile::interpolate::"):
+                    return fn_term(prog, prog.bodies[x[2]], {i + 1: Kn.term(a) for i, a in enumerate(x[3])})
+                return None
+            Kn = Kernel(prog, body, leaf)
+            return canon_op(Kn.term(e))
+        return Table(prog, b, canon, should_inline=leafless).finish()
+    HALF = canon_op(("num", 0.5))
+    P = ("Lt", canon_op(FR), HALF)
+
+    def nearest(item, key, pmap, expect, good, what):
+        b = impl("Nearest", item)
+        try:
+            T = table_of(b, pmap)
+            if T.atoms != [P]:
+                ctx.ob(rule, key, False, b.where(), "Nearest::%s decides on %s, expected only `fract((N−1)q) < 1/2`" % (
+                    item, "; ".join("%s %s %s" % (show(a[1]), "<" if a[0] == "Lt" else "==", show(a[2])) for a in T.atoms)[:160] or "nothing"), what=what)
+                return
+            bad = [asg for asg in T.assignments() if not expect(T, T.at(asg), asg[0])]
+            ctx.ob(rule, key, not bad, b.where(), good if not bad else "Nearest::%s is wrong when fract((N−1)q) < 1/2 is %s" % (item, bad[0][0]), what=what)
+        except (NoTable, Unrecognised) as ex:
+            ctx.ob(rule, key, False, b.where(), "Nearest::%s is not a decision table over `fract((N−1)q) < 1/2`: %s" % (item, ex), what=what)
+
+    def is_unwrap_of(T, v, pi):
+        v = ds(v)
+        return isinstance(v, tuple) and v[0] == "call" and v[1] == "unwrap" and ds(v[3][0])[:2] == ("param", pi)
+    nearest("needs_lower", "Nearest/needs_lower", qn, lambda T, v, lt: v is lt, "lower iff fract((N−1)q) < 0.5", "nearest neighbour chosen by the wrong threshold")
+    nearest("needs_higher", "Nearest/needs_higher", qn, lambda T, v, lt: v is (not lt), "higher iff not fract((N−1)q) < 0.5 (= !needs_lower)", "nearest: lower/higher not complementary")
+    nearest("interpolate", "Nearest/interpolate", {3: q, 4: n}, lambda T, v, lt: is_unwrap_of(T, v, 1 if lt else 2),
+            "fract((N−1)q) < 0.5 ? lower : higher", "nearest returns the wrong neighbour")
     names = {1: lo, 2: hi, 3: q, 4: n}
     for s_, spec in (("Higher", hi), ("Lower", lo), ("Midpoint", ("div", ("add", lo, hi), ("num", 2))),
                      ("Linear", ("add", lo, ("mul", FR, ("sub", hi, lo))))):
@@ -2282,8 +2324,10 @@ def _realify(t):
 # ======================================================================================= C08 covariance / correlation (matrix form)
 
 def rule_c08_structure(ctx, prog, rule="R19"):
+    from .facts import inline_calls
+    from .rules_zones import helper_filter
     cov = prog.method("CorrelationExt", "cov")
-    tb = prog.tracked(cov)
+    tb = prog.tracked(inline_calls(prog, cov, helper_filter(prog)))      # private helpers of the module are read in place
     sv = success_values(tb)
     ok1 = len(sv) == 1
     ctx.ob("R13", "cov/single-success-value", ok1, cov.where(), "one success value" if ok1 else "%d success values" % len(sv),
@@ -2328,7 +2372,7 @@ def rule_c08_structure(ctx, prog, rule="R19"):
         ctx.ob(rule, "cov/denominator", denom, cov.where(), "every entry divided by (n_observations − ddof), n_observations = len_of(Axis(1))" if denom else
                "entries are not divided by (len_of(self, Axis(1)) − ddof)", what="covariance denominator is not n − ddof")
     pc = prog.method("CorrelationExt", "pearson_correlation")
-    tp = prog.tracked(pc)
+    tp = prog.tracked(inline_calls(prog, pc, helper_filter(prog)))
     sv = success_values(tp)
     ok = len(sv) == 1
     detail = "%d success values" % len(sv)
